@@ -14,6 +14,10 @@ type nat =
 | O
 | S of nat
 
+type ('a, 'b) sum =
+| Inl of 'a
+| Inr of 'b
+
 (** val fst : ('a1 * 'a2) -> 'a1 **)
 
 let fst = function
@@ -32,10 +36,10 @@ let rec length = function
 
 (** val app : 'a1 list -> 'a1 list -> 'a1 list **)
 
-let rec app l m =
+let rec app l m0 =
   match l with
-  | [] -> m
-  | a :: l1 -> a :: (app l1 m)
+  | [] -> m0
+  | a :: l1 -> a :: (app l1 m0)
 
 type comparison =
 | Eq
@@ -51,19 +55,19 @@ let compOpp = function
 
 module Coq__1 = struct
  (** val add : nat -> nat -> nat **)
- let rec add n0 m =
+ let rec add n0 m0 =
    match n0 with
-   | O -> m
-   | S p -> S (add p m)
+   | O -> m0
+   | S p -> S (add p m0)
 end
 include Coq__1
 
 (** val mul : nat -> nat -> nat **)
 
-let rec mul n0 m =
+let rec mul n0 m0 =
   match n0 with
   | O -> O
-  | S p -> add m (mul p m)
+  | S p -> add m0 (mul p m0)
 
 (** val eqb : bool -> bool -> bool **)
 
@@ -74,35 +78,35 @@ module Nat =
  struct
   (** val eqb : nat -> nat -> bool **)
 
-  let rec eqb n0 m =
+  let rec eqb n0 m0 =
     match n0 with
-    | O -> (match m with
+    | O -> (match m0 with
             | O -> true
             | S _ -> false)
-    | S n' -> (match m with
+    | S n' -> (match m0 with
                | O -> false
                | S m' -> eqb n' m')
 
   (** val leb : nat -> nat -> bool **)
 
-  let rec leb n0 m =
+  let rec leb n0 m0 =
     match n0 with
     | O -> true
-    | S n' -> (match m with
+    | S n' -> (match m0 with
                | O -> false
                | S m' -> leb n' m')
 
   (** val ltb : nat -> nat -> bool **)
 
-  let ltb n0 m =
-    leb (S n0) m
+  let ltb n0 m0 =
+    leb (S n0) m0
 
   (** val max : nat -> nat -> nat **)
 
-  let rec max n0 m =
+  let rec max n0 m0 =
     match n0 with
-    | O -> m
-    | S n' -> (match m with
+    | O -> m0
+    | S n' -> (match m0 with
                | O -> n0
                | S m' -> S (max n' m'))
  end
@@ -120,9 +124,19 @@ let rec nth n0 l default =
   | O -> (match l with
           | [] -> default
           | x :: _ -> x)
-  | S m -> (match l with
-            | [] -> default
-            | _ :: t -> nth m t default)
+  | S m0 -> (match l with
+             | [] -> default
+             | _ :: t -> nth m0 t default)
+
+(** val nth_error : 'a1 list -> nat -> 'a1 option **)
+
+let rec nth_error l = function
+| O -> (match l with
+        | [] -> None
+        | x :: _ -> Some x)
+| S n1 -> (match l with
+           | [] -> None
+           | _ :: l0 -> nth_error l0 n1)
 
 (** val last : 'a1 list -> 'a1 -> 'a1 **)
 
@@ -269,17 +283,17 @@ module Coq_Pos =
     match x with
     | XI p ->
       (match y with
-       | XI q -> XO (add_carry p q)
-       | XO q -> XI (add p q)
+       | XI q0 -> XO (add_carry p q0)
+       | XO q0 -> XI (add p q0)
        | XH -> XO (succ p))
     | XO p ->
       (match y with
-       | XI q -> XI (add p q)
-       | XO q -> XO (add p q)
+       | XI q0 -> XI (add p q0)
+       | XO q0 -> XO (add p q0)
        | XH -> XI p)
     | XH -> (match y with
-             | XI q -> XO (succ q)
-             | XO q -> XI q
+             | XI q0 -> XO (succ q0)
+             | XO q0 -> XI q0
              | XH -> XO XH)
 
   (** val add_carry : positive -> positive -> positive **)
@@ -288,18 +302,18 @@ module Coq_Pos =
     match x with
     | XI p ->
       (match y with
-       | XI q -> XI (add_carry p q)
-       | XO q -> XO (add_carry p q)
+       | XI q0 -> XI (add_carry p q0)
+       | XO q0 -> XO (add_carry p q0)
        | XH -> XI (succ p))
     | XO p ->
       (match y with
-       | XI q -> XO (add_carry p q)
-       | XO q -> XI (add p q)
+       | XI q0 -> XO (add_carry p q0)
+       | XO q0 -> XI (add p q0)
        | XH -> XO (succ p))
     | XH ->
       (match y with
-       | XI q -> XI (succ q)
-       | XO q -> XO (succ q)
+       | XI q0 -> XI (succ q0)
+       | XO q0 -> XO (succ q0)
        | XH -> XI XH)
 
   (** val pred_double : positive -> positive **)
@@ -340,13 +354,13 @@ module Coq_Pos =
     match x with
     | XI p ->
       (match y with
-       | XI q -> double_mask (sub_mask p q)
-       | XO q -> succ_double_mask (sub_mask p q)
+       | XI q0 -> double_mask (sub_mask p q0)
+       | XO q0 -> succ_double_mask (sub_mask p q0)
        | XH -> IsPos (XO p))
     | XO p ->
       (match y with
-       | XI q -> succ_double_mask (sub_mask_carry p q)
-       | XO q -> double_mask (sub_mask p q)
+       | XI q0 -> succ_double_mask (sub_mask_carry p q0)
+       | XO q0 -> double_mask (sub_mask p q0)
        | XH -> IsPos (pred_double p))
     | XH -> (match y with
              | XH -> IsNul
@@ -358,13 +372,13 @@ module Coq_Pos =
     match x with
     | XI p ->
       (match y with
-       | XI q -> succ_double_mask (sub_mask_carry p q)
-       | XO q -> double_mask (sub_mask p q)
+       | XI q0 -> succ_double_mask (sub_mask_carry p q0)
+       | XO q0 -> double_mask (sub_mask p q0)
        | XH -> IsPos (pred_double p))
     | XO p ->
       (match y with
-       | XI q -> double_mask (sub_mask_carry p q)
-       | XO q -> succ_double_mask (sub_mask_carry p q)
+       | XI q0 -> double_mask (sub_mask_carry p q0)
+       | XO q0 -> succ_double_mask (sub_mask_carry p q0)
        | XH -> double_pred_mask p)
     | XH -> IsNeg
 
@@ -402,19 +416,26 @@ module Coq_Pos =
   | XO p0 -> S (size_nat p0)
   | XH -> S O
 
+  (** val size : positive -> positive **)
+
+  let rec size = function
+  | XI p0 -> succ (size p0)
+  | XO p0 -> succ (size p0)
+  | XH -> XH
+
   (** val compare_cont : comparison -> positive -> positive -> comparison **)
 
   let rec compare_cont r x y =
     match x with
     | XI p ->
       (match y with
-       | XI q -> compare_cont r p q
-       | XO q -> compare_cont Gt p q
+       | XI q0 -> compare_cont r p q0
+       | XO q0 -> compare_cont Gt p q0
        | XH -> Gt)
     | XO p ->
       (match y with
-       | XI q -> compare_cont Lt p q
-       | XO q -> compare_cont r p q
+       | XI q0 -> compare_cont Lt p q0
+       | XO q0 -> compare_cont r p q0
        | XH -> Gt)
     | XH -> (match y with
              | XH -> r
@@ -427,15 +448,15 @@ module Coq_Pos =
 
   (** val eqb : positive -> positive -> bool **)
 
-  let rec eqb p q =
+  let rec eqb p q0 =
     match p with
-    | XI p0 -> (match q with
-                | XI q0 -> eqb p0 q0
+    | XI p0 -> (match q0 with
+                | XI q1 -> eqb p0 q1
                 | _ -> false)
-    | XO p0 -> (match q with
-                | XO q0 -> eqb p0 q0
+    | XO p0 -> (match q0 with
+                | XO q1 -> eqb p0 q1
                 | _ -> false)
-    | XH -> (match q with
+    | XH -> (match q0 with
              | XH -> true
              | _ -> false)
 
@@ -466,6 +487,43 @@ module Coq_Pos =
 
   let gcd a b0 =
     gcdn (Coq__1.add (size_nat a) (size_nat b0)) a b0
+
+  (** val ggcdn :
+      nat -> positive -> positive -> positive * (positive * positive) **)
+
+  let rec ggcdn n0 a b0 =
+    match n0 with
+    | O -> (XH, (a, b0))
+    | S n1 ->
+      (match a with
+       | XI a' ->
+         (match b0 with
+          | XI b' ->
+            (match compare a' b' with
+             | Eq -> (a, (XH, XH))
+             | Lt ->
+               let (g, p) = ggcdn n1 (sub b' a') a in
+               let (ba, aa) = p in (g, (aa, (add aa (XO ba))))
+             | Gt ->
+               let (g, p) = ggcdn n1 (sub a' b') b0 in
+               let (ab, bb) = p in (g, ((add bb (XO ab)), bb)))
+          | XO b1 ->
+            let (g, p) = ggcdn n1 a b1 in
+            let (aa, bb) = p in (g, (aa, (XO bb)))
+          | XH -> (XH, (a, XH)))
+       | XO a0 ->
+         (match b0 with
+          | XI _ ->
+            let (g, p) = ggcdn n1 a0 b0 in
+            let (aa, bb) = p in (g, ((XO aa), bb))
+          | XO b1 -> let (g, p) = ggcdn n1 a0 b1 in ((XO g), p)
+          | XH -> (XH, (a, XH)))
+       | XH -> (XH, (XH, b0)))
+
+  (** val ggcd : positive -> positive -> positive * (positive * positive) **)
+
+  let ggcd a b0 =
+    ggcdn (Coq__1.add (size_nat a) (size_nat b0)) a b0
 
   (** val iter_op : ('a1 -> 'a1 -> 'a1) -> positive -> 'a1 -> 'a1 **)
 
@@ -517,20 +575,20 @@ module N =
 
   (** val add : n -> n -> n **)
 
-  let add n0 m =
+  let add n0 m0 =
     match n0 with
-    | N0 -> m
-    | Npos p -> (match m with
+    | N0 -> m0
+    | Npos p -> (match m0 with
                  | N0 -> n0
-                 | Npos q -> Npos (Coq_Pos.add p q))
+                 | Npos q0 -> Npos (Coq_Pos.add p q0))
 
   (** val sub : n -> n -> n **)
 
-  let sub n0 m =
+  let sub n0 m0 =
     match n0 with
     | N0 -> N0
     | Npos n' ->
-      (match m with
+      (match m0 with
        | N0 -> n0
        | Npos m' ->
          (match Coq_Pos.sub_mask n' m' with
@@ -539,34 +597,34 @@ module N =
 
   (** val mul : n -> n -> n **)
 
-  let mul n0 m =
+  let mul n0 m0 =
     match n0 with
     | N0 -> N0
-    | Npos p -> (match m with
+    | Npos p -> (match m0 with
                  | N0 -> N0
-                 | Npos q -> Npos (Coq_Pos.mul p q))
+                 | Npos q0 -> Npos (Coq_Pos.mul p q0))
 
   (** val compare : n -> n -> comparison **)
 
-  let compare n0 m =
+  let compare n0 m0 =
     match n0 with
-    | N0 -> (match m with
+    | N0 -> (match m0 with
              | N0 -> Eq
              | Npos _ -> Lt)
-    | Npos n' -> (match m with
+    | Npos n' -> (match m0 with
                   | N0 -> Gt
                   | Npos m' -> Coq_Pos.compare n' m')
 
   (** val eqb : n -> n -> bool **)
 
-  let eqb n0 m =
+  let eqb n0 m0 =
     match n0 with
-    | N0 -> (match m with
+    | N0 -> (match m0 with
              | N0 -> true
              | Npos _ -> false)
-    | Npos p -> (match m with
+    | Npos p -> (match m0 with
                  | N0 -> false
-                 | Npos q -> Coq_Pos.eqb p q)
+                 | Npos q0 -> Coq_Pos.eqb p q0)
 
   (** val leb : n -> n -> bool **)
 
@@ -588,20 +646,30 @@ module N =
   | N0 -> Npos XH
   | Npos p0 -> (match n0 with
                 | N0 -> N0
-                | Npos q -> Npos (Coq_Pos.pow q p0))
+                | Npos q0 -> Npos (Coq_Pos.pow q0 p0))
+
+  (** val log2 : n -> n **)
+
+  let log2 = function
+  | N0 -> N0
+  | Npos p0 ->
+    (match p0 with
+     | XI p -> Npos (Coq_Pos.size p)
+     | XO p -> Npos (Coq_Pos.size p)
+     | XH -> N0)
 
   (** val pos_div_eucl : positive -> n -> n * n **)
 
   let rec pos_div_eucl a b0 =
     match a with
     | XI a' ->
-      let (q, r) = pos_div_eucl a' b0 in
+      let (q0, r) = pos_div_eucl a' b0 in
       let r' = succ_double r in
-      if leb b0 r' then ((succ_double q), (sub r' b0)) else ((double q), r')
+      if leb b0 r' then ((succ_double q0), (sub r' b0)) else ((double q0), r')
     | XO a' ->
-      let (q, r) = pos_div_eucl a' b0 in
+      let (q0, r) = pos_div_eucl a' b0 in
       let r' = double r in
-      if leb b0 r' then ((succ_double q), (sub r' b0)) else ((double q), r')
+      if leb b0 r' then ((succ_double q0), (sub r' b0)) else ((double q0), r')
     | XH ->
       (match b0 with
        | N0 -> (N0, (Npos XH))
@@ -640,26 +708,111 @@ module N =
   | O -> N0
   | S n' -> Npos (Coq_Pos.of_succ_nat n')
 
+  (** val iter : n -> ('a1 -> 'a1) -> 'a1 -> 'a1 **)
+
+  let iter n0 f x =
+    match n0 with
+    | N0 -> x
+    | Npos p -> Coq_Pos.iter f x p
+
   (** val eq_dec : n -> n -> bool **)
 
-  let eq_dec n0 m =
+  let eq_dec n0 m0 =
     match n0 with
-    | N0 -> (match m with
+    | N0 -> (match m0 with
              | N0 -> true
              | Npos _ -> false)
-    | Npos p -> (match m with
+    | Npos p -> (match m0 with
                  | N0 -> false
                  | Npos p0 -> Coq_Pos.eq_dec p p0)
  end
 
 module Z =
  struct
+  (** val double : z -> z **)
+
+  let double = function
+  | Z0 -> Z0
+  | Zpos p -> Zpos (XO p)
+  | Zneg p -> Zneg (XO p)
+
+  (** val succ_double : z -> z **)
+
+  let succ_double = function
+  | Z0 -> Zpos XH
+  | Zpos p -> Zpos (XI p)
+  | Zneg p -> Zneg (Coq_Pos.pred_double p)
+
+  (** val pred_double : z -> z **)
+
+  let pred_double = function
+  | Z0 -> Zneg XH
+  | Zpos p -> Zpos (Coq_Pos.pred_double p)
+  | Zneg p -> Zneg (XI p)
+
+  (** val pos_sub : positive -> positive -> z **)
+
+  let rec pos_sub x y =
+    match x with
+    | XI p ->
+      (match y with
+       | XI q0 -> double (pos_sub p q0)
+       | XO q0 -> succ_double (pos_sub p q0)
+       | XH -> Zpos (XO p))
+    | XO p ->
+      (match y with
+       | XI q0 -> pred_double (pos_sub p q0)
+       | XO q0 -> double (pos_sub p q0)
+       | XH -> Zpos (Coq_Pos.pred_double p))
+    | XH ->
+      (match y with
+       | XI q0 -> Zneg (XO q0)
+       | XO q0 -> Zneg (Coq_Pos.pred_double q0)
+       | XH -> Z0)
+
+  (** val add : z -> z -> z **)
+
+  let add x y =
+    match x with
+    | Z0 -> y
+    | Zpos x' ->
+      (match y with
+       | Z0 -> x
+       | Zpos y' -> Zpos (Coq_Pos.add x' y')
+       | Zneg y' -> pos_sub x' y')
+    | Zneg x' ->
+      (match y with
+       | Z0 -> x
+       | Zpos y' -> pos_sub y' x'
+       | Zneg y' -> Zneg (Coq_Pos.add x' y'))
+
   (** val opp : z -> z **)
 
   let opp = function
   | Z0 -> Z0
   | Zpos x0 -> Zneg x0
   | Zneg x0 -> Zpos x0
+
+  (** val sub : z -> z -> z **)
+
+  let sub m0 n0 =
+    add m0 (opp n0)
+
+  (** val mul : z -> z -> z **)
+
+  let mul x y =
+    match x with
+    | Z0 -> Z0
+    | Zpos x' ->
+      (match y with
+       | Z0 -> Z0
+       | Zpos y' -> Zpos (Coq_Pos.mul x' y')
+       | Zneg y' -> Zneg (Coq_Pos.mul x' y'))
+    | Zneg x' ->
+      (match y with
+       | Z0 -> Z0
+       | Zpos y' -> Zneg (Coq_Pos.mul x' y')
+       | Zneg y' -> Zpos (Coq_Pos.mul x' y'))
 
   (** val compare : z -> z -> comparison **)
 
@@ -677,12 +830,26 @@ module Z =
        | Zneg y' -> compOpp (Coq_Pos.compare x' y')
        | _ -> Lt)
 
+  (** val sgn : z -> z **)
+
+  let sgn = function
+  | Z0 -> Z0
+  | Zpos _ -> Zpos XH
+  | Zneg _ -> Zneg XH
+
   (** val leb : z -> z -> bool **)
 
   let leb x y =
     match compare x y with
     | Gt -> false
     | _ -> true
+
+  (** val ltb : z -> z -> bool **)
+
+  let ltb x y =
+    match compare x y with
+    | Lt -> true
+    | _ -> false
 
   (** val eqb : z -> z -> bool **)
 
@@ -692,10 +859,10 @@ module Z =
              | Z0 -> true
              | _ -> false)
     | Zpos p -> (match y with
-                 | Zpos q -> Coq_Pos.eqb p q
+                 | Zpos q0 -> Coq_Pos.eqb p q0
                  | _ -> false)
     | Zneg p -> (match y with
-                 | Zneg q -> Coq_Pos.eqb p q
+                 | Zneg q0 -> Coq_Pos.eqb p q0
                  | _ -> false)
 
   (** val abs : z -> z **)
@@ -711,11 +878,70 @@ module Z =
   | Zpos p -> Npos p
   | Zneg p -> Npos p
 
+  (** val to_N : z -> n **)
+
+  let to_N = function
+  | Zpos p -> Npos p
+  | _ -> N0
+
   (** val of_N : n -> z **)
 
   let of_N = function
   | N0 -> Z0
   | Npos p -> Zpos p
+
+  (** val to_pos : z -> positive **)
+
+  let to_pos = function
+  | Zpos p -> p
+  | _ -> XH
+
+  (** val pos_div_eucl : positive -> z -> z * z **)
+
+  let rec pos_div_eucl a b0 =
+    match a with
+    | XI a' ->
+      let (q0, r) = pos_div_eucl a' b0 in
+      let r' = add (mul (Zpos (XO XH)) r) (Zpos XH) in
+      if ltb r' b0
+      then ((mul (Zpos (XO XH)) q0), r')
+      else ((add (mul (Zpos (XO XH)) q0) (Zpos XH)), (sub r' b0))
+    | XO a' ->
+      let (q0, r) = pos_div_eucl a' b0 in
+      let r' = mul (Zpos (XO XH)) r in
+      if ltb r' b0
+      then ((mul (Zpos (XO XH)) q0), r')
+      else ((add (mul (Zpos (XO XH)) q0) (Zpos XH)), (sub r' b0))
+    | XH -> if leb (Zpos (XO XH)) b0 then (Z0, (Zpos XH)) else ((Zpos XH), Z0)
+
+  (** val div_eucl : z -> z -> z * z **)
+
+  let div_eucl a b0 =
+    match a with
+    | Z0 -> (Z0, Z0)
+    | Zpos a' ->
+      (match b0 with
+       | Z0 -> (Z0, a)
+       | Zpos _ -> pos_div_eucl a' b0
+       | Zneg b' ->
+         let (q0, r) = pos_div_eucl a' (Zpos b') in
+         (match r with
+          | Z0 -> ((opp q0), Z0)
+          | _ -> ((opp (add q0 (Zpos XH))), (add b0 r))))
+    | Zneg a' ->
+      (match b0 with
+       | Z0 -> (Z0, a)
+       | Zpos _ ->
+         let (q0, r) = pos_div_eucl a' b0 in
+         (match r with
+          | Z0 -> ((opp q0), Z0)
+          | _ -> ((opp (add q0 (Zpos XH))), (sub b0 r)))
+       | Zneg b' -> let (q0, r) = pos_div_eucl a' (Zpos b') in (q0, (opp r)))
+
+  (** val div : z -> z -> z **)
+
+  let div a b0 =
+    let (q0, _) = div_eucl a b0 in q0
 
   (** val gcd : z -> z -> z **)
 
@@ -732,7 +958,91 @@ module Z =
        | Z0 -> abs a
        | Zpos b1 -> Zpos (Coq_Pos.gcd a0 b1)
        | Zneg b1 -> Zpos (Coq_Pos.gcd a0 b1))
+
+  (** val ggcd : z -> z -> z * (z * z) **)
+
+  let ggcd a b0 =
+    match a with
+    | Z0 -> ((abs b0), (Z0, (sgn b0)))
+    | Zpos a0 ->
+      (match b0 with
+       | Z0 -> ((abs a), ((sgn a), Z0))
+       | Zpos b1 ->
+         let (g, p) = Coq_Pos.ggcd a0 b1 in
+         let (aa, bb) = p in ((Zpos g), ((Zpos aa), (Zpos bb)))
+       | Zneg b1 ->
+         let (g, p) = Coq_Pos.ggcd a0 b1 in
+         let (aa, bb) = p in ((Zpos g), ((Zpos aa), (Zneg bb))))
+    | Zneg a0 ->
+      (match b0 with
+       | Z0 -> ((abs a), ((sgn a), Z0))
+       | Zpos b1 ->
+         let (g, p) = Coq_Pos.ggcd a0 b1 in
+         let (aa, bb) = p in ((Zpos g), ((Zneg aa), (Zpos bb)))
+       | Zneg b1 ->
+         let (g, p) = Coq_Pos.ggcd a0 b1 in
+         let (aa, bb) = p in ((Zpos g), ((Zneg aa), (Zneg bb))))
  end
+
+(** val zeq_bool : z -> z -> bool **)
+
+let zeq_bool x y =
+  match Z.compare x y with
+  | Eq -> true
+  | _ -> false
+
+type q = { qnum : z; qden : positive }
+
+(** val inject_Z : z -> q **)
+
+let inject_Z x =
+  { qnum = x; qden = XH }
+
+(** val qcompare : q -> q -> comparison **)
+
+let qcompare p q0 =
+  Z.compare (Z.mul p.qnum (Zpos q0.qden)) (Z.mul q0.qnum (Zpos p.qden))
+
+(** val qeq_bool : q -> q -> bool **)
+
+let qeq_bool x y =
+  zeq_bool (Z.mul x.qnum (Zpos y.qden)) (Z.mul y.qnum (Zpos x.qden))
+
+(** val qle_bool : q -> q -> bool **)
+
+let qle_bool x y =
+  Z.leb (Z.mul x.qnum (Zpos y.qden)) (Z.mul y.qnum (Zpos x.qden))
+
+(** val qplus : q -> q -> q **)
+
+let qplus x y =
+  { qnum = (Z.add (Z.mul x.qnum (Zpos y.qden)) (Z.mul y.qnum (Zpos x.qden)));
+    qden = (Coq_Pos.mul x.qden y.qden) }
+
+(** val qmult : q -> q -> q **)
+
+let qmult x y =
+  { qnum = (Z.mul x.qnum y.qnum); qden = (Coq_Pos.mul x.qden y.qden) }
+
+(** val qopp : q -> q **)
+
+let qopp x =
+  { qnum = (Z.opp x.qnum); qden = x.qden }
+
+(** val qinv : q -> q **)
+
+let qinv x =
+  match x.qnum with
+  | Z0 -> { qnum = Z0; qden = XH }
+  | Zpos p -> { qnum = (Zpos x.qden); qden = p }
+  | Zneg p -> { qnum = (Zneg x.qden); qden = p }
+
+(** val qred : q -> q **)
+
+let qred q0 =
+  let { qnum = q1; qden = q2 } = q0 in
+  let (r1, r2) = snd (Z.ggcd q1 (Zpos q2)) in
+  { qnum = r1; qden = (Z.to_pos r2) }
 
 (** val b : n **)
 
@@ -1055,13 +1365,13 @@ let bgcd a b0 =
 
 (** val to_limbs : nat -> n -> n list **)
 
-let rec to_limbs fuel m =
+let rec to_limbs fuel m0 =
   match fuel with
   | O -> []
   | S f ->
-    (N.modulo m b) :: (if N.eqb (N.div m b) N0
-                       then []
-                       else to_limbs f (N.div m b))
+    (N.modulo m0 b) :: (if N.eqb (N.div m0 b) N0
+                        then []
+                        else to_limbs f (N.div m0 b))
 
 (** val bnew : z -> big **)
 
@@ -1084,6 +1394,16 @@ type num = { up : big; down : big }
 
 let nan =
   { up = bone; down = bzero }
+
+(** val nzero : num **)
+
+let nzero =
+  { up = bzero; down = bone }
+
+(** val n_one : num **)
+
+let n_one =
+  { up = bone; down = bone }
 
 (** val from_num : z -> num **)
 
@@ -1328,27 +1648,27 @@ let from_string_base s base =
         | [] ->
           let flip = false in
           (match horner (bnew (Z.of_N base)) s (bnew Z0) with
-           | Some res0 ->
+           | Some res1 ->
              FSOk
-               (if flip then { bpos = false; limbs = res0.limbs } else res0)
+               (if flip then { bpos = false; limbs = res1.limbs } else res1)
            | None -> FSParse)
         | c :: r ->
           if N.eqb c cH_MINUS
           then let flip = true in
                (match horner (bnew (Z.of_N base)) r (bnew Z0) with
-                | Some res0 ->
+                | Some res1 ->
                   FSOk
                     (if flip
-                     then { bpos = false; limbs = res0.limbs }
-                     else res0)
+                     then { bpos = false; limbs = res1.limbs }
+                     else res1)
                 | None -> FSParse)
           else let flip = false in
                (match horner (bnew (Z.of_N base)) s (bnew Z0) with
-                | Some res0 ->
+                | Some res1 ->
                   FSOk
                     (if flip
-                     then { bpos = false; limbs = res0.limbs }
-                     else res0)
+                     then { bpos = false; limbs = res1.limbs }
+                     else res1)
                 | None -> FSParse))
 
 (** val num_display : num -> n list **)
@@ -1363,13 +1683,13 @@ let num_display n0 =
 
 (** val split_slash : n list -> n list -> n list list **)
 
-let rec split_slash s cur =
+let rec split_slash s cur0 =
   match s with
-  | [] -> (rev cur) :: []
+  | [] -> (rev cur0) :: []
   | c :: r ->
     if N.eqb c cH_SLASH
-    then (rev cur) :: (split_slash r [])
-    else split_slash r (c :: cur)
+    then (rev cur0) :: (split_slash r [])
+    else split_slash r (c :: cur0)
 
 (** val num_from_string : n list -> num option **)
 
@@ -1380,7 +1700,7 @@ let num_from_string s =
         | [] ->
           let ng = false in
           let parts = split_slash s [] in
-          let res0 =
+          let res1 =
             match parts with
             | [] -> None
             | a :: l ->
@@ -1398,14 +1718,14 @@ let num_from_string s =
                      | _ -> None)
                   | _ -> None))
           in
-          (match res0 with
+          (match res1 with
            | Some r -> Some (if ng then nminus r else r)
            | None -> None)
         | c :: r ->
           if N.eqb c cH_MINUS
           then let ng = true in
                let parts = split_slash r [] in
-               let res0 =
+               let res1 =
                  match parts with
                  | [] -> None
                  | a :: l ->
@@ -1423,12 +1743,12 @@ let num_from_string s =
                           | _ -> None)
                        | _ -> None))
                in
-               (match res0 with
+               (match res1 with
                 | Some r0 -> Some (if ng then nminus r0 else r0)
                 | None -> None)
           else let ng = false in
                let parts = split_slash s [] in
-               let res0 =
+               let res1 =
                  match parts with
                  | [] -> None
                  | a :: l ->
@@ -1446,7 +1766,7 @@ let num_from_string s =
                           | _ -> None)
                        | _ -> None))
                in
-               (match res0 with
+               (match res1 with
                 | Some r0 -> Some (if ng then nminus r0 else r0)
                 | None -> None))
 
@@ -1724,11 +2044,11 @@ let flush s =
 
 (** val max_pos : n list -> n -> ((n * n) * n) -> (n * n) * n **)
 
-let rec max_pos l i m =
+let rec max_pos l i m0 =
   match l with
-  | [] -> m
+  | [] -> m0
   | c :: r ->
-    let (p, d) = m in
+    let (p, d) = m0 in
     let (a, b0) = p in
     max_pos r (N.add i (Npos XH))
       (match end_class c with
@@ -1736,12 +2056,12 @@ let rec max_pos l i m =
          if N.eqb k N0
          then ((i, b0), d)
          else if N.eqb k (Npos XH) then ((a, i), d) else ((a, b0), i)
-       | None -> m)
+       | None -> m0)
 
 (** val mp_get : ((n * n) * n) -> n -> n **)
 
-let mp_get m k =
-  let (p, d) = m in
+let mp_get m0 k =
+  let (p, d) = m0 in
   let (a, b0) = p in
   if N.eqb k N0 then a else if N.eqb k (Npos XH) then b0 else d
 
@@ -1907,13 +2227,13 @@ let is_areach c =
 
 (** val split_on : n -> n list -> n list -> n list list **)
 
-let rec split_on sep l cur =
+let rec split_on sep l cur0 =
   match l with
-  | [] -> (rev cur) :: []
+  | [] -> (rev cur0) :: []
   | c :: r ->
     if N.eqb c sep
-    then (rev cur) :: (split_on sep r [])
-    else split_on sep r (c :: cur)
+    then (rev cur0) :: (split_on sep r [])
+    else split_on sep r (c :: cur0)
 
 (** val slot_of : n list -> slot **)
 
@@ -2186,3 +2506,1086 @@ let rec dscan l s =
 let decompose text =
   let s = dscan text dst0 in
   { cprefix = (rev s.dpre); ccmds = (rev (dclose s)) }
+
+type xcode = { xty : n; xhc : n; xdc : n; xac : n; xar : area }
+
+(** val xcode_of_ucode : ucode -> xcode **)
+
+let xcode_of_ucode u =
+  { xty = u.ty; xhc = u.hc; xdc = u.dc; xac = (N.mul u.hc u.dc); xar = u.ar }
+
+type errkind =
+| EEnc of n
+| EIo
+
+type skind =
+| SUnopt
+| SOpt of n
+
+type state = { skind_ : skind; stacks : (n * num list) list; cur : n;
+               points : (n * n) list; latest : n option;
+               inp : n list option list; outb : n list; errb : n list }
+
+(** val state0 : skind -> n list option list -> state **)
+
+let state0 k input0 =
+  { skind_ = k; stacks = []; cur = (Npos (XI XH)); points = []; latest =
+    None; inp = input0; outb = []; errb = [] }
+
+type 'a res0 =
+| ROk of 'a * state
+| RExit of n * state
+| RErr of errkind * state
+
+type 'a m = state -> 'a res0
+
+(** val ret : 'a1 -> 'a1 m **)
+
+let ret a s =
+  ROk (a, s)
+
+(** val bind : 'a1 m -> ('a1 -> 'a2 m) -> 'a2 m **)
+
+let bind m0 f s =
+  match m0 s with
+  | ROk (a, s') -> f a s'
+  | RExit (c, s') -> RExit (c, s')
+  | RErr (e, s') -> RErr (e, s')
+
+(** val alist_get : (n * 'a1) list -> n -> 'a1 option **)
+
+let rec alist_get l k =
+  match l with
+  | [] -> None
+  | p :: r -> let (k', v) = p in if N.eqb k' k then Some v else alist_get r k
+
+(** val alist_set : (n * 'a1) list -> n -> 'a1 -> (n * 'a1) list **)
+
+let rec alist_set l k v =
+  match l with
+  | [] -> (k, v) :: []
+  | p :: r ->
+    let (k', v') = p in
+    if N.eqb k' k then (k, v) :: r else (k', v') :: (alist_set r k v)
+
+(** val get_stack : state -> n -> num list **)
+
+let get_stack s i =
+  match alist_get s.stacks i with
+  | Some l -> l
+  | None -> []
+
+(** val set_stack : state -> n -> num list -> state **)
+
+let set_stack s i l =
+  { skind_ = s.skind_; stacks = (alist_set s.stacks i l); cur = s.cur;
+    points = s.points; latest = s.latest; inp = s.inp; outb = s.outb; errb =
+    s.errb }
+
+(** val in_range : state -> n -> bool **)
+
+let in_range s i =
+  match s.skind_ with
+  | SUnopt -> true
+  | SOpt n0 -> N.ltb i n0
+
+(** val push_stack : n -> num -> unit m **)
+
+let push_stack i x s =
+  if in_range s i
+  then let st0 = get_stack s i in
+       (match st0 with
+        | [] ->
+          if is_nan x
+          then ROk ((), s)
+          else ROk ((), (set_stack s i (x :: [])))
+        | _ :: _ -> ROk ((), (set_stack s i (x :: st0))))
+  else ROk ((), s)
+
+(** val pop_stack : n -> num m **)
+
+let pop_stack i s =
+  if in_range s i
+  then (match get_stack s i with
+        | [] -> ROk (nan, s)
+        | x :: r -> ROk (x, (set_stack s i r)))
+  else ROk (nan, s)
+
+(** val is_scalar : n -> bool **)
+
+let is_scalar n0 =
+  (&&)
+    ((||)
+      (N.ltb n0 (Npos (XO (XO (XO (XO (XO (XO (XO (XO (XO (XO (XO (XI (XI (XO
+        (XI XH)))))))))))))))))
+      (N.ltb (Npos (XI (XI (XI (XI (XI (XI (XI (XI (XI (XI (XI (XI (XI (XO
+        (XI XH)))))))))))))))) n0))
+    (N.leb n0 (Npos (XI (XI (XI (XI (XI (XI (XI (XI (XI (XI (XI (XI (XI (XI
+      (XI (XI (XO (XO (XO (XO XH))))))))))))))))))))))
+
+(** val num_to_unicode : num -> (n, n) sum **)
+
+let num_to_unicode x =
+  let n0 = to_int (floor x) in if is_scalar n0 then Inl n0 else Inr n0
+
+(** val write_out : bool -> n list -> unit m **)
+
+let write_out to_err txt s =
+  if to_err
+  then ROk ((), { skind_ = s.skind_; stacks = s.stacks; cur = s.cur; points =
+         s.points; latest = s.latest; inp = s.inp; outb = s.outb; errb =
+         (app (rev txt) s.errb) })
+  else ROk ((), { skind_ = s.skind_; stacks = s.stacks; cur = s.cur; points =
+         s.points; latest = s.latest; inp = s.inp; outb =
+         (app (rev txt) s.outb); errb = s.errb })
+
+(** val fail : errkind -> 'a1 m **)
+
+let fail e s =
+  RErr (e, s)
+
+(** val exit_ : n -> 'a1 m **)
+
+let exit_ c s =
+  RExit (c, s)
+
+(** val push_wrap : n -> num -> unit m **)
+
+let push_wrap i x =
+  if (||) (N.eqb i (Npos XH)) (N.eqb i (Npos (XO XH)))
+  then if is_pos x
+       then (match num_to_unicode x with
+             | Inl c -> write_out (N.eqb i (Npos (XO XH))) (c :: [])
+             | Inr n0 -> fail (EEnc n0))
+       else write_out (N.eqb i (Npos (XO XH))) (num_display (nneg x))
+  else push_stack i x
+
+(** val read_line : n list m **)
+
+let read_line s =
+  match s.inp with
+  | [] -> ROk ([], s)
+  | o :: r ->
+    (match o with
+     | Some l ->
+       ROk (l, { skind_ = s.skind_; stacks = s.stacks; cur = s.cur; points =
+         s.points; latest = s.latest; inp = r; outb = s.outb; errb = s.errb })
+     | None ->
+       RErr (EIo, { skind_ = s.skind_; stacks = s.stacks; cur = s.cur;
+         points = s.points; latest = s.latest; inp = r; outb = s.outb; errb =
+         s.errb }))
+
+(** val push_all : n -> n list -> unit m **)
+
+let rec push_all i = function
+| [] -> ret ()
+| c :: r -> bind (push_stack i (from_num (Z.of_N c))) (fun _ -> push_all i r)
+
+(** val pop_wrap : n -> num m **)
+
+let pop_wrap i =
+  if N.eqb i N0
+  then (fun s ->
+         match get_stack s N0 with
+         | [] ->
+           bind read_line (fun l ->
+             bind (push_all N0 (rev l)) (fun _ -> pop_stack N0)) s
+         | _ :: _ -> pop_stack N0 s)
+  else if N.eqb i (Npos XH)
+       then exit_ N0
+       else if N.eqb i (Npos (XO XH)) then exit_ (Npos XH) else pop_stack i
+
+(** val calc : area -> n -> num m -> n m **)
+
+let rec calc a cnt pop =
+  match a with
+  | Nil -> ret N0
+  | Val (t, l, r) ->
+    if N.eqb t N0
+    then bind pop (fun v ->
+           match ncmp v (from_num (Z.of_N cnt)) with
+           | Some c ->
+             (match c with
+              | Lt -> calc l cnt pop
+              | _ -> calc r cnt pop)
+           | None -> calc r cnt pop)
+    else if N.eqb t (Npos XH)
+         then bind pop (fun v ->
+                match ncmp v (from_num (Z.of_N cnt)) with
+                | Some c ->
+                  (match c with
+                   | Eq -> calc l cnt pop
+                   | _ -> calc r cnt pop)
+                | None -> calc r cnt pop)
+         else ret t
+
+(** val iterM : n -> ('a1 -> 'a1 m) -> 'a1 -> 'a1 m **)
+
+let iterM n0 f a =
+  N.iter n0 (fun m0 -> bind m0 f) (ret a)
+
+(** val set_cur : n -> unit m **)
+
+let set_cur c s =
+  ROk ((), { skind_ = s.skind_; stacks = s.stacks; cur = c; points =
+    s.points; latest = s.latest; inp = s.inp; outb = s.outb; errb = s.errb })
+
+(** val get_cur : n m **)
+
+let get_cur s =
+  ROk (s.cur, s)
+
+(** val body : xcode -> unit m **)
+
+let body c =
+  bind get_cur (fun cs ->
+    match c.xty with
+    | N0 ->
+      push_wrap cs (nmul (from_num (Z.of_N c.xhc)) (from_num (Z.of_N c.xdc)))
+    | Npos p ->
+      (match p with
+       | XI p0 ->
+         (match p0 with
+          | XH ->
+            bind
+              (iterM c.xhc (fun v ->
+                bind (pop_wrap cs) (fun x -> ret (x :: v))) []) (fun v ->
+              bind
+                (fold_left (fun m0 x ->
+                  bind m0 (fun n0 ->
+                    let x' = nminus x in
+                    bind (push_wrap cs x') (fun _ -> ret (nadd n0 x')))) v
+                  (ret nzero)) (fun n0 -> push_wrap c.xdc n0))
+          | _ ->
+            bind (pop_wrap cs) (fun n0 ->
+              bind (iterM c.xhc (fun _ -> push_wrap c.xdc n0) ()) (fun _ ->
+                bind (push_wrap cs n0) (fun _ -> set_cur c.xdc))))
+       | XO p0 ->
+         (match p0 with
+          | XI _ ->
+            bind (pop_wrap cs) (fun n0 ->
+              bind (iterM c.xhc (fun _ -> push_wrap c.xdc n0) ()) (fun _ ->
+                bind (push_wrap cs n0) (fun _ -> set_cur c.xdc)))
+          | XO p1 ->
+            (match p1 with
+             | XH ->
+               bind
+                 (iterM c.xhc (fun v ->
+                   bind (pop_wrap cs) (fun x -> ret (x :: v))) []) (fun v ->
+                 bind
+                   (fold_left (fun m0 x ->
+                     bind m0 (fun n0 ->
+                       let x' = nflip x in
+                       bind (push_wrap cs x') (fun _ -> ret (nmul n0 x')))) v
+                     (ret n_one)) (fun n0 -> push_wrap c.xdc n0))
+             | _ ->
+               bind (pop_wrap cs) (fun n0 ->
+                 bind (iterM c.xhc (fun _ -> push_wrap c.xdc n0) ())
+                   (fun _ -> bind (push_wrap cs n0) (fun _ -> set_cur c.xdc))))
+          | XH ->
+            bind
+              (iterM c.xhc (fun n0 ->
+                bind (pop_wrap cs) (fun v -> ret (nmul n0 v))) n_one)
+              (fun n0 -> push_wrap c.xdc n0))
+       | XH ->
+         bind
+           (iterM c.xhc (fun n0 ->
+             bind (pop_wrap cs) (fun v -> ret (nadd n0 v))) nzero) (fun n0 ->
+           push_wrap c.xdc n0)))
+
+(** val get_point : n -> n option m **)
+
+let get_point id s =
+  ROk ((alist_get s.points id), s)
+
+(** val set_point : n -> n -> unit m **)
+
+let set_point id loc0 s =
+  ROk ((), { skind_ = s.skind_; stacks = s.stacks; cur = s.cur; points =
+    (alist_set s.points id loc0); latest = s.latest; inp = s.inp; outb =
+    s.outb; errb = s.errb })
+
+(** val set_latest : n -> unit m **)
+
+let set_latest loc0 s =
+  ROk ((), { skind_ = s.skind_; stacks = s.stacks; cur = s.cur; points =
+    s.points; latest = (Some loc0); inp = s.inp; outb = s.outb; errb =
+    s.errb })
+
+(** val get_latest : n option m **)
+
+let get_latest s =
+  ROk (s.latest, s)
+
+(** val execute_one : xcode -> n -> n m **)
+
+let execute_one c pc =
+  bind (body c) (fun _ ->
+    bind get_cur (fun cs ->
+      bind (calc c.xar c.xac (pop_wrap cs)) (fun t ->
+        if N.eqb t N0
+        then ret (N.add pc (Npos XH))
+        else if N.eqb t (Npos (XI (XO (XI XH))))
+             then bind get_latest (fun l ->
+                    match l with
+                    | Some loc0 -> ret loc0
+                    | None -> ret (N.add pc (Npos XH)))
+             else let id = N.add (N.mul c.xac (Npos (XO (XO (XO (XO XH)))))) t
+                  in
+                  bind (get_point id) (fun p ->
+                    match p with
+                    | Some v ->
+                      if N.eqb pc v
+                      then ret (N.add pc (Npos XH))
+                      else bind (set_latest pc) (fun _ -> ret v)
+                    | None ->
+                      bind (set_point id pc) (fun _ ->
+                        ret (N.add pc (Npos XH)))))))
+
+type final =
+| FDone of state
+| FExit of n * state
+| FErr of errkind * state
+| FFuel of state * n
+| FPanic of state
+
+(** val run_pre : nat -> xcode list -> state -> n -> final **)
+
+let rec run_pre fuel code s pc =
+  match fuel with
+  | O -> FFuel (s, pc)
+  | S f ->
+    if N.leb (N.of_nat (length code)) pc
+    then FDone s
+    else (match nth_error code (N.to_nat pc) with
+          | Some c ->
+            (match execute_one c pc s with
+             | ROk (pc', s') -> run_pre f code s' pc'
+             | RExit (k, s') -> FExit (k, s')
+             | RErr (e, s') -> FErr (e, s'))
+          | None -> FPanic s)
+
+(** val exec_loop : nat -> xcode list -> state -> n -> n -> final * nat **)
+
+let rec exec_loop fuel code s pc len =
+  match fuel with
+  | O -> ((FFuel (s, pc)), O)
+  | S f ->
+    if N.leb len pc
+    then ((FDone s), fuel)
+    else (match nth_error code (N.to_nat pc) with
+          | Some c ->
+            (match execute_one c pc s with
+             | ROk (pc', s') -> exec_loop f code s' pc' len
+             | RExit (k, s') -> ((FExit (k, s')), f)
+             | RErr (e, s') -> ((FErr (e, s')), f))
+          | None -> ((FPanic s), f))
+
+(** val run_inc : nat -> xcode list -> xcode list -> state -> final **)
+
+let rec run_inc fuel done0 todo s =
+  match todo with
+  | [] -> FDone s
+  | c :: r ->
+    let code = app done0 (c :: []) in
+    let pc = N.of_nat (length done0) in
+    let (x, f') = exec_loop fuel code s pc (N.add pc (Npos XH)) in
+    (match x with
+     | FDone s' -> run_inc f' code r s'
+     | _ -> x)
+
+(** val final_state : final -> state **)
+
+let final_state = function
+| FDone s -> s
+| FExit (_, s) -> s
+| FErr (_, s) -> s
+| FFuel (s, _) -> s
+| FPanic s -> s
+
+(** val qfloor : q -> z **)
+
+let qfloor x =
+  let { qnum = n0; qden = d } = x in Z.div n0 (Zpos d)
+
+type value =
+| VNaN
+| VRat of q
+
+(** val vadd : value -> value -> value **)
+
+let vadd a b0 =
+  match a with
+  | VNaN -> VNaN
+  | VRat x -> (match b0 with
+               | VNaN -> VNaN
+               | VRat y -> VRat (qred (qplus x y)))
+
+(** val vmul : value -> value -> value **)
+
+let vmul a b0 =
+  match a with
+  | VNaN -> VNaN
+  | VRat x -> (match b0 with
+               | VNaN -> VNaN
+               | VRat y -> VRat (qred (qmult x y)))
+
+(** val vneg : value -> value **)
+
+let vneg = function
+| VNaN -> VNaN
+| VRat x -> VRat (qred (qopp x))
+
+(** val vrecip : value -> value **)
+
+let vrecip = function
+| VNaN -> VNaN
+| VRat x ->
+  if qeq_bool x { qnum = Z0; qden = XH } then VNaN else VRat (qred (qinv x))
+
+(** val vnat : n -> value **)
+
+let vnat n0 =
+  VRat (inject_Z (Z.of_N n0))
+
+(** val dec_digits : nat -> n -> n list -> n list **)
+
+let rec dec_digits fuel n0 acc =
+  match fuel with
+  | O -> acc
+  | S f ->
+    if N.ltb n0 (Npos (XO (XI (XO XH))))
+    then (N.add (Npos (XO (XO (XO (XO (XI XH)))))) n0) :: acc
+    else dec_digits f (N.div n0 (Npos (XO (XI (XO XH)))))
+           ((N.add (Npos (XO (XO (XO (XO (XI XH))))))
+              (N.modulo n0 (Npos (XO (XI (XO XH)))))) :: acc)
+
+(** val dec_N : n -> n list **)
+
+let dec_N n0 =
+  dec_digits (S (N.to_nat (N.log2 n0))) n0 []
+
+(** val dec_Z : z -> n list **)
+
+let dec_Z z0 =
+  app (if Z.ltb z0 Z0 then (Npos (XI (XO (XI (XI (XO XH)))))) :: [] else [])
+    (dec_N (Z.abs_N z0))
+
+(** val nAN_TEXT_SPEC : n list **)
+
+let nAN_TEXT_SPEC =
+  (Npos (XO (XO (XO (XI (XO (XO (XO (XO (XI (XO (XO (XO (XI (XI (XO
+    XH)))))))))))))))) :: ((Npos (XO (XO (XI (XO (XI (XI (XO (XO (XI (XI (XO
+    (XI (XI (XI (XO XH)))))))))))))))) :: ((Npos (XO (XO (XO (XO (XO
+    XH)))))) :: ((Npos (XO (XO (XI (XO (XO (XI (XI (XI (XO (XI (XI (XI (XO
+    (XO (XI XH)))))))))))))))) :: ((Npos (XI (XI (XI (XO (XO (XO (XI (XI (XI
+    (XO (XI (XO (XO (XO (XI XH)))))))))))))))) :: ((Npos (XO (XI (XI (XI (XO
+    XH)))))) :: ((Npos (XO (XI (XI (XI (XO XH)))))) :: ((Npos (XO (XI (XI (XI
+    (XO XH)))))) :: [])))))))
+
+(** val value_text : value -> n list **)
+
+let value_text = function
+| VNaN -> nAN_TEXT_SPEC
+| VRat q0 ->
+  let q1 = qred q0 in
+  if Z.eqb (Zpos q1.qden) (Zpos XH)
+  then dec_Z q1.qnum
+  else app (dec_Z q1.qnum)
+         (app ((Npos (XI (XI (XI (XI (XO XH)))))) :: [])
+           (dec_Z (Zpos q1.qden)))
+
+type serr =
+| SEnc of n
+| SIo
+
+type lstate = { stk : (n * value list) list; sel : n; labels : (n * n) list;
+                lastj : n option; input : n list option list; out : n list;
+                err : n list }
+
+(** val lstate0 : n list option list -> lstate **)
+
+let lstate0 i =
+  { stk = []; sel = (Npos (XI XH)); labels = []; lastj = None; input = i;
+    out = []; err = [] }
+
+(** val lookup : (n * 'a1) list -> n -> 'a1 option **)
+
+let rec lookup l k =
+  match l with
+  | [] -> None
+  | p :: r -> let (k', v) = p in if N.eqb k' k then Some v else lookup r k
+
+(** val update : (n * 'a1) list -> n -> 'a1 -> (n * 'a1) list **)
+
+let rec update l k v =
+  match l with
+  | [] -> (k, v) :: []
+  | p :: r ->
+    let (k', v') = p in
+    if N.eqb k' k then (k, v) :: r else (k', v') :: (update r k v)
+
+(** val sget : lstate -> n -> value list **)
+
+let sget s i =
+  match lookup s.stk i with
+  | Some l -> l
+  | None -> []
+
+(** val sset : lstate -> n -> value list -> lstate **)
+
+let sset s i l =
+  { stk = (update s.stk i l); sel = s.sel; labels = s.labels; lastj =
+    s.lastj; input = s.input; out = s.out; err = s.err }
+
+type 'a sres =
+| SOk of 'a * lstate
+| SExit of n * lstate
+| SErr of serr * lstate
+
+(** val scalar : n -> bool **)
+
+let scalar n0 =
+  (&&)
+    ((||)
+      (N.ltb n0 (Npos (XO (XO (XO (XO (XO (XO (XO (XO (XO (XO (XO (XI (XI (XO
+        (XI XH)))))))))))))))))
+      (N.ltb (Npos (XI (XI (XI (XI (XI (XI (XI (XI (XI (XI (XI (XI (XI (XO
+        (XI XH)))))))))))))))) n0))
+    (N.leb n0 (Npos (XI (XI (XI (XI (XI (XI (XI (XI (XI (XI (XI (XI (XI (XI
+      (XI (XI (XO (XO (XO (XO XH))))))))))))))))))))))
+
+(** val spush : n -> value -> lstate -> unit sres **)
+
+let spush i v s =
+  if (||) (N.eqb i (Npos XH)) (N.eqb i (Npos (XO XH)))
+  then let emit = fun txt ->
+         if N.eqb i (Npos XH)
+         then { stk = s.stk; sel = s.sel; labels = s.labels; lastj = s.lastj;
+                input = s.input; out = (app s.out txt); err = s.err }
+         else { stk = s.stk; sel = s.sel; labels = s.labels; lastj = s.lastj;
+                input = s.input; out = s.out; err = (app s.err txt) }
+       in
+       (match v with
+        | VNaN -> SOk ((), (emit (value_text VNaN)))
+        | VRat q0 ->
+          if qle_bool { qnum = Z0; qden = XH } q0
+          then let n0 =
+                 N.modulo (Z.to_N (qfloor q0)) (Npos (XO (XO (XO (XO (XO (XO
+                   (XO (XO (XO (XO (XO (XO (XO (XO (XO (XO (XO (XO (XO (XO
+                   (XO (XO (XO (XO (XO (XO (XO (XO (XO (XO (XO (XO
+                   XH)))))))))))))))))))))))))))))))))
+               in
+               if scalar n0
+               then SOk ((), (emit (n0 :: [])))
+               else SErr ((SEnc n0), s)
+          else SOk ((), (emit (value_text (vneg v)))))
+  else (match sget s i with
+        | [] ->
+          (match v with
+           | VNaN -> SOk ((), s)
+           | VRat _ -> SOk ((), (sset s i (v :: []))))
+        | v0 :: l0 -> SOk ((), (sset s i (v :: (v0 :: l0)))))
+
+(** val spop : n -> lstate -> value sres **)
+
+let spop i s =
+  if N.eqb i (Npos XH)
+  then SExit (N0, s)
+  else if N.eqb i (Npos (XO XH))
+       then SExit ((Npos XH), s)
+       else let refill =
+              if (&&) (N.eqb i N0)
+                   (match sget s N0 with
+                    | [] -> true
+                    | _ :: _ -> false)
+              then (match s.input with
+                    | [] -> Inl s
+                    | o :: r ->
+                      (match o with
+                       | Some line0 ->
+                         let s' = { stk = s.stk; sel = s.sel; labels =
+                           s.labels; lastj = s.lastj; input = r; out = s.out;
+                           err = s.err }
+                         in
+                         Inl
+                         (match line0 with
+                          | [] -> s'
+                          | _ :: _ -> sset s' N0 (map vnat line0))
+                       | None ->
+                         Inr { stk = s.stk; sel = s.sel; labels = s.labels;
+                           lastj = s.lastj; input = r; out = s.out; err =
+                           s.err }))
+              else Inl s
+            in
+            (match refill with
+             | Inl s' ->
+               (match sget s' i with
+                | [] -> SOk (VNaN, s')
+                | v :: l -> SOk (v, (sset s' i l)))
+             | Inr s' -> SErr (SIo, s'))
+
+(** val spops : nat -> n -> lstate -> value list sres **)
+
+let rec spops n0 i s =
+  match n0 with
+  | O -> SOk ([], s)
+  | S m0 ->
+    (match spop i s with
+     | SOk (v, s') ->
+       (match spops m0 i s' with
+        | SOk (l, s'') -> SOk ((v :: l), s'')
+        | x -> x)
+     | SExit (c, s') -> SExit (c, s')
+     | SErr (e, s') -> SErr (e, s'))
+
+(** val spushes : n -> value list -> lstate -> unit sres **)
+
+let rec spushes i l s =
+  match l with
+  | [] -> SOk ((), s)
+  | v :: r -> (match spush i v s with
+               | SOk (_, s') -> spushes i r s'
+               | x -> x)
+
+(** val scommand : n -> n -> n -> lstate -> unit sres **)
+
+let scommand kind n0 d s =
+  let c = s.sel in
+  (match kind with
+   | N0 -> spush c (vmul (vnat n0) (vnat d)) s
+   | Npos p ->
+     (match p with
+      | XI p0 ->
+        (match p0 with
+         | XH ->
+           (match spops (N.to_nat n0) c s with
+            | SOk (l, s') ->
+              let l' = map vneg (rev l) in
+              (match spushes c l' s' with
+               | SOk (_, s'') -> spush d (fold_left vadd l' (vnat N0)) s''
+               | x -> x)
+            | SExit (k, s') -> SExit (k, s')
+            | SErr (e, s') -> SErr (e, s'))
+         | _ ->
+           (match spop c s with
+            | SOk (v, s') ->
+              (match spushes d (repeat v (N.to_nat n0)) s' with
+               | SOk (_, s'') ->
+                 (match spush c v s'' with
+                  | SOk (_, s3) ->
+                    SOk ((), { stk = s3.stk; sel = d; labels = s3.labels;
+                      lastj = s3.lastj; input = s3.input; out = s3.out; err =
+                      s3.err })
+                  | x -> x)
+               | x -> x)
+            | SExit (k, s') -> SExit (k, s')
+            | SErr (e, s') -> SErr (e, s')))
+      | XO p0 ->
+        (match p0 with
+         | XI _ ->
+           (match spop c s with
+            | SOk (v, s') ->
+              (match spushes d (repeat v (N.to_nat n0)) s' with
+               | SOk (_, s'') ->
+                 (match spush c v s'' with
+                  | SOk (_, s3) ->
+                    SOk ((), { stk = s3.stk; sel = d; labels = s3.labels;
+                      lastj = s3.lastj; input = s3.input; out = s3.out; err =
+                      s3.err })
+                  | x -> x)
+               | x -> x)
+            | SExit (k, s') -> SExit (k, s')
+            | SErr (e, s') -> SErr (e, s'))
+         | XO p1 ->
+           (match p1 with
+            | XH ->
+              (match spops (N.to_nat n0) c s with
+               | SOk (l, s') ->
+                 let l' = map vrecip (rev l) in
+                 (match spushes c l' s' with
+                  | SOk (_, s'') ->
+                    spush d (fold_left vmul l' (vnat (Npos XH))) s''
+                  | x -> x)
+               | SExit (k, s') -> SExit (k, s')
+               | SErr (e, s') -> SErr (e, s'))
+            | _ ->
+              (match spop c s with
+               | SOk (v, s') ->
+                 (match spushes d (repeat v (N.to_nat n0)) s' with
+                  | SOk (_, s'') ->
+                    (match spush c v s'' with
+                     | SOk (_, s3) ->
+                       SOk ((), { stk = s3.stk; sel = d; labels = s3.labels;
+                         lastj = s3.lastj; input = s3.input; out = s3.out;
+                         err = s3.err })
+                     | x -> x)
+                  | x -> x)
+               | SExit (k, s') -> SExit (k, s')
+               | SErr (e, s') -> SErr (e, s')))
+         | XH ->
+           (match spops (N.to_nat n0) c s with
+            | SOk (l, s') -> spush d (fold_left vmul l (vnat (Npos XH))) s'
+            | SExit (k, s') -> SExit (k, s')
+            | SErr (e, s') -> SErr (e, s')))
+      | XH ->
+        (match spops (N.to_nat n0) c s with
+         | SOk (l, s') -> spush d (fold_left vadd l (vnat N0)) s'
+         | SExit (k, s') -> SExit (k, s')
+         | SErr (e, s') -> SErr (e, s'))))
+
+(** val vlt : value -> n -> bool **)
+
+let vlt v n0 =
+  match v with
+  | VNaN -> false
+  | VRat q0 ->
+    (match qcompare q0 (inject_Z (Z.of_N n0)) with
+     | Lt -> true
+     | _ -> false)
+
+(** val veq : value -> n -> bool **)
+
+let veq v n0 =
+  match v with
+  | VNaN -> false
+  | VRat q0 -> qeq_bool q0 (inject_Z (Z.of_N n0))
+
+(** val sarea : area -> n -> lstate -> n sres **)
+
+let rec sarea a count s =
+  match a with
+  | Nil -> SOk (N0, s)
+  | Val (t, l, r) ->
+    if N.eqb t N0
+    then (match spop s.sel s with
+          | SOk (v, s') ->
+            if vlt v count then sarea l count s' else sarea r count s'
+          | SExit (k, s') -> SExit (k, s')
+          | SErr (e, s') -> SErr (e, s'))
+    else if N.eqb t (Npos XH)
+         then (match spop s.sel s with
+               | SOk (v, s') ->
+                 if veq v count then sarea l count s' else sarea r count s'
+               | SExit (k, s') -> SExit (k, s')
+               | SErr (e, s') -> SErr (e, s'))
+         else SOk (t, s)
+
+(** val sstep : n -> n -> n -> n -> area -> n -> lstate -> n sres **)
+
+let sstep kind n0 d count a pc s =
+  match scommand kind n0 d s with
+  | SOk (_, s1) ->
+    (match sarea a count s1 with
+     | SOk (t, s2) ->
+       if N.eqb t N0
+       then SOk ((N.add pc (Npos XH)), s2)
+       else if N.eqb t (Npos (XI (XO (XI XH))))
+            then SOk
+                   ((match s2.lastj with
+                     | Some j -> j
+                     | None -> N.add pc (Npos XH)), s2)
+            else let id = N.add (N.mul count (Npos (XO (XO (XO (XO XH)))))) t
+                 in
+                 (match lookup s2.labels id with
+                  | Some j ->
+                    if N.eqb j pc
+                    then SOk ((N.add pc (Npos XH)), s2)
+                    else SOk (j, { stk = s2.stk; sel = s2.sel; labels =
+                           s2.labels; lastj = (Some pc); input = s2.input;
+                           out = s2.out; err = s2.err })
+                  | None ->
+                    SOk ((N.add pc (Npos XH)), { stk = s2.stk; sel = s2.sel;
+                      labels = (update s2.labels id pc); lastj = s2.lastj;
+                      input = s2.input; out = s2.out; err = s2.err }))
+     | x -> x)
+  | SExit (k, s1) -> SExit (k, s1)
+  | SErr (e, s1) -> SErr (e, s1)
+
+type scmd = { sk : n; sn : n; sd : n; scount : n; sa : area }
+
+(** val scmd_of_ucode : ucode -> scmd **)
+
+let scmd_of_ucode u =
+  { sk = u.ty; sn = u.hc; sd = u.dc; scount = (N.mul u.hc u.dc); sa = u.ar }
+
+type sfinal =
+| SDone of lstate
+| SExited of n * lstate
+| SFailed of serr * lstate
+| SRunning of lstate * n
+
+(** val srun : nat -> scmd list -> lstate -> n -> sfinal **)
+
+let rec srun fuel prog s pc =
+  match fuel with
+  | O -> SRunning (s, pc)
+  | S f ->
+    (match nth_error prog (N.to_nat pc) with
+     | Some c ->
+       (match sstep c.sk c.sn c.sd c.scount c.sa pc s with
+        | SOk (pc', s') -> srun f prog s' pc'
+        | SExit (k, s') -> SExited (k, s')
+        | SErr (e, s') -> SFailed (e, s'))
+     | None -> SDone s)
+
+type fixes = { fx5 : bool; fx6 : bool; fx7 : bool }
+
+(** val all_fixed : fixes **)
+
+let all_fixed =
+  { fx5 = true; fx6 = true; fx7 = true }
+
+(** val pinned : fixes **)
+
+let pinned =
+  { fx5 = false; fx6 = false; fx7 = false }
+
+(** val chk_scan : fixes -> ucode list -> n -> n list **)
+
+let rec chk_scan fx code now =
+  match code with
+  | [] -> []
+  | u :: r ->
+    if N.eqb u.ty N0
+    then chk_scan fx r now
+    else if N.eqb u.ty (Npos (XI (XO XH)))
+         then now :: (app (if fx.fx7 then u.dc :: [] else [])
+                       (chk_scan fx r u.dc))
+         else now :: (chk_scan fx r now)
+
+(** val insert_sorted : n -> n list -> n list **)
+
+let rec insert_sorted x l = match l with
+| [] -> x :: []
+| y :: r -> if N.leb x y then x :: l else y :: (insert_sorted x r)
+
+(** val sort_N : n list -> n list **)
+
+let sort_N l =
+  fold_right insert_sorted [] l
+
+(** val assign : n list -> (n * n) list -> n -> (n * n) list * n **)
+
+let rec assign l m0 next =
+  match l with
+  | [] -> (m0, next)
+  | i :: r ->
+    if N.leb i (Npos (XI XH))
+    then assign r m0 next
+    else (match alist_get m0 i with
+          | Some _ -> assign r m0 next
+          | None -> assign r (alist_set m0 i next) (N.add next (Npos XH)))
+
+(** val renum_map : fixes -> ucode list -> (n * n) list * n **)
+
+let renum_map fx code =
+  assign (sort_N (chk_scan fx code (Npos (XI XH)))) [] (Npos (XO (XO XH)))
+
+(** val renum : (n * n) list -> n -> n -> n **)
+
+let renum m0 mx d =
+  if N.leb d (Npos (XI XH))
+  then d
+  else (match alist_get m0 d with
+        | Some v -> v
+        | None -> mx)
+
+(** val opt_code : (n * n) list -> n -> ucode -> xcode **)
+
+let opt_code m0 mx u =
+  { xty = u.ty; xhc = u.hc; xdc =
+    (if N.eqb u.ty N0 then u.dc else renum m0 mx u.dc); xac =
+    (N.mul u.hc u.dc); xar = u.ar }
+
+(** val bAIL : n **)
+
+let bAIL =
+  Npos (XI (XI (XO (XO (XO (XI XH))))))
+
+(** val guard : n -> unit m **)
+
+let guard cs =
+  if N.leb cs (Npos (XO XH)) then exit_ bAIL else ret ()
+
+(** val gpop : n -> num m **)
+
+let gpop cs =
+  bind (guard cs) (fun _ -> pop_wrap cs)
+
+(** val obody : fixes -> xcode -> unit m **)
+
+let obody fx c =
+  bind get_cur (fun cs ->
+    match c.xty with
+    | N0 ->
+      push_wrap cs (nmul (from_num (Z.of_N c.xhc)) (from_num (Z.of_N c.xdc)))
+    | Npos p ->
+      (match p with
+       | XI p0 ->
+         (match p0 with
+          | XH ->
+            bind
+              (iterM c.xhc (fun v -> bind (gpop cs) (fun x -> ret (x :: v)))
+                []) (fun v ->
+              bind
+                (fold_left (fun m0 x ->
+                  bind m0 (fun n0 ->
+                    let x' = nminus x in
+                    bind (push_wrap cs x') (fun _ -> ret (nadd n0 x'))))
+                  (if fx.fx5 then v else rev v) (ret nzero)) (fun n0 ->
+                push_wrap c.xdc n0))
+          | _ ->
+            bind (gpop cs) (fun n0 ->
+              bind (iterM c.xhc (fun _ -> push_wrap c.xdc n0) ()) (fun _ ->
+                bind (push_wrap cs n0) (fun _ -> set_cur c.xdc))))
+       | XO p0 ->
+         (match p0 with
+          | XI _ ->
+            bind (gpop cs) (fun n0 ->
+              bind (iterM c.xhc (fun _ -> push_wrap c.xdc n0) ()) (fun _ ->
+                bind (push_wrap cs n0) (fun _ -> set_cur c.xdc)))
+          | XO p1 ->
+            (match p1 with
+             | XH ->
+               bind
+                 (iterM c.xhc (fun v ->
+                   bind (gpop cs) (fun x -> ret (x :: v))) []) (fun v ->
+                 bind
+                   (fold_left (fun m0 x ->
+                     bind m0 (fun n0 ->
+                       let x' = nflip x in
+                       bind (push_wrap cs x') (fun _ -> ret (nmul n0 x'))))
+                     (if fx.fx5 then v else rev v) (ret n_one)) (fun n0 ->
+                   push_wrap c.xdc n0))
+             | _ ->
+               bind (gpop cs) (fun n0 ->
+                 bind (iterM c.xhc (fun _ -> push_wrap c.xdc n0) ())
+                   (fun _ -> bind (push_wrap cs n0) (fun _ -> set_cur c.xdc))))
+          | XH ->
+            bind
+              (iterM c.xhc (fun n0 ->
+                bind (gpop cs) (fun v -> ret (nmul n0 v))) n_one) (fun n0 ->
+              push_wrap c.xdc n0))
+       | XH ->
+         bind
+           (iterM c.xhc (fun n0 -> bind (gpop cs) (fun v -> ret (nadd n0 v)))
+             nzero) (fun n0 -> push_wrap c.xdc n0)))
+
+(** val oexecute_one : fixes -> xcode -> n -> (n * bool) m **)
+
+let oexecute_one fx c pc =
+  bind (obody fx c) (fun _ ->
+    bind get_cur (fun cs ->
+      bind (calc c.xar c.xac (gpop cs)) (fun t ->
+        if N.eqb t N0
+        then ret ((N.add pc (Npos XH)), false)
+        else if N.eqb t (Npos (XI (XO (XI XH))))
+             then bind get_latest (fun l ->
+                    match l with
+                    | Some loc0 -> ret (loc0, true)
+                    | None -> ret ((N.add pc (Npos XH)), false))
+             else let id = N.add (N.mul c.xac (Npos (XO (XO (XO (XO XH)))))) t
+                  in
+                  bind (get_point id) (fun p ->
+                    match p with
+                    | Some v ->
+                      if N.eqb pc v
+                      then ret ((N.add pc (Npos XH)), false)
+                      else bind (set_latest pc) (fun _ -> ret (v, true))
+                    | None ->
+                      bind (set_point id pc) (fun _ ->
+                        ret ((N.add pc (Npos XH)), false))))))
+
+type ores =
+| ODone of state
+| OBail of state
+| OErr of errkind * state
+| OFuel
+| OPanic
+
+(** val opt_loop :
+    nat -> fixes -> xcode list -> state -> n -> n -> n -> ores **)
+
+let rec opt_loop fuel fx code s pc len jumps =
+  match fuel with
+  | O -> OFuel
+  | S f ->
+    if N.leb len pc
+    then ODone s
+    else if N.leb (Npos (XO (XO (XI (XO (XO (XI XH))))))) jumps
+         then OBail s
+         else (match nth_error code (N.to_nat pc) with
+               | Some c ->
+                 (match oexecute_one fx c pc s with
+                  | ROk (a, s') ->
+                    let (pc', j) = a in
+                    opt_loop f fx code s' pc' len
+                      (if j then N.add jumps (Npos XH) else jumps)
+                  | RExit (_, s') -> OBail s'
+                  | RErr (e, s') -> OErr (e, s'))
+               | None -> OPanic)
+
+(** val opt_fuel : xcode list -> nat **)
+
+let opt_fuel code =
+  add
+    (mul (S (S (S (S (S (S (S (S (S (S (S (S (S (S (S (S (S (S (S (S (S (S (S
+      (S (S (S (S (S (S (S (S (S (S (S (S (S (S (S (S (S (S (S (S (S (S (S (S
+      (S (S (S (S (S (S (S (S (S (S (S (S (S (S (S (S (S (S (S (S (S (S (S (S
+      (S (S (S (S (S (S (S (S (S (S (S (S (S (S (S (S (S (S (S (S (S (S (S (S
+      (S (S (S (S (S (S
+      O)))))))))))))))))))))))))))))))))))))))))))))))))))))))))))))))))))))))))))))))))))))))))))))))))))))
+      (S (length code))) (S O)
+
+type opt_result = { ostate : state; olog : xcode list; orest : xcode list }
+
+type optimized =
+| OptOk of opt_result
+| OptErr of errkind
+| OptStuck
+
+(** val with_io : state -> state -> state **)
+
+let with_io s io =
+  { skind_ = s.skind_; stacks = s.stacks; cur = s.cur; points = s.points;
+    latest = s.latest; inp = s.inp; outb = io.outb; errb = io.errb }
+
+(** val preexec : fixes -> state -> xcode list -> xcode list -> optimized **)
+
+let rec preexec fx s log todo = match todo with
+| [] -> OptOk { ostate = s; olog = log; orest = [] }
+| c :: r ->
+  let code = app log (c :: []) in
+  let pc = N.of_nat (length log) in
+  (match opt_loop (opt_fuel code) fx code s pc (N.add pc (Npos XH)) N0 with
+   | ODone s' -> preexec fx s' code r
+   | OBail s' ->
+     OptOk { ostate = (if fx.fx6 then s else with_io s s'); olog = log;
+       orest = todo }
+   | OErr (e, _) -> OptErr e
+   | _ -> OptStuck)
+
+(** val optimize_prog :
+    fixes -> ucode list -> n -> n list option list -> optimized **)
+
+let optimize_prog fx code level input0 =
+  if N.eqb level N0
+  then OptOk { ostate = (state0 (SOpt N0) input0); olog = []; orest = [] }
+  else let (m0, mx) = renum_map fx code in
+       let ocode = map (opt_code m0 mx) code in
+       let s0 = state0 (SOpt (N.add mx (Npos XH))) input0 in
+       if N.eqb level (Npos XH)
+       then OptOk { ostate = s0; olog = []; orest = ocode }
+       else preexec fx s0 [] ocode
+
+(** val run_level :
+    fixes -> nat -> ucode list -> n -> n list option list -> final **)
+
+let run_level fx fuel code level input0 =
+  if N.eqb level N0
+  then run_inc fuel [] (map xcode_of_ucode code) (state0 SUnopt input0)
+  else (match optimize_prog fx code level input0 with
+        | OptOk r -> run_inc fuel r.olog r.orest r.ostate
+        | OptErr e -> FErr (e, (state0 SUnopt input0))
+        | OptStuck -> FPanic (state0 SUnopt input0))
